@@ -20,6 +20,7 @@ Oracle : for every generated node of every emitted / operator-produced tree: its
 
 from __future__ import annotations
 
+import itertools
 import random
 from typing import Any
 
@@ -263,6 +264,16 @@ def check_case(case: dict[str, Any], ctx: Any = None) -> list[str]:
         pool = [g.fuzz("<start>", max_nodes=case["settings"]["max_nodes"]) for _ in range(3)]
     except Exception:
         return msgs
+    # trees that enter through Fandango.parse() carry generated fields as well (their protection is re-established
+    # by the reader, not by the generator): operators must respect them like freshly generated ones
+    try:
+        parsed = list(itertools.islice(f.parse(str(pool[0])), 1))
+    except Exception:
+        parsed = []
+    if parsed:
+        pool = [parsed[0]] + pool[:2]
+        if ctx is not None:
+            ctx.count("direct_on_parsed_tree")
     ev = Evaluator(g, f.constraints, 1.0, 5, 1.0)
 
     def drain(gen: Any) -> Any:
